@@ -29,6 +29,8 @@ var NumPool = [][]byte{
 	{0xff, 0xff, 0xff, 0xff, 0xff, 0xff, 0xff, 0x7f}, {0, 0, 0, 0, 0, 0, 0, 0x80, 0x00}, {0, 0, 0, 0, 0, 0, 0, 0, 0x01},
 	{0xff, 0xff, 0xff, 0xff, 0xff, 0xff, 0xff, 0xff, 0x00}, {0, 0, 0, 0, 0, 0, 0, 0, 0x81},
 	{0xab, 0xcd}, {0x12, 0x34, 0x56}, {0xaa, 0x55, 0xaa, 0x55, 0xaa},
+	// small values plus 2^32 / 2^64 (what narrowing to 32 or 64 bits turns back into 1, 2, 3, 8)
+	{0x01, 0, 0, 0, 0x01}, {0x02, 0, 0, 0, 0x01}, {0x01, 0, 0, 0, 0, 0, 0, 0, 0x01}, {0x03, 0, 0, 0, 0, 0, 0, 0, 0x01}, {0x08, 0, 0, 0, 0, 0, 0, 0, 0x01}, {0x01, 0, 0, 0, 0, 0, 0, 0, 0x81},
 }
 
 // Operand draws one operand: mostly from the pool, sometimes random, sometimes large.
